@@ -215,6 +215,8 @@ Emit ==
     /\ (Done /\ fam = "mask" /\ consumer = "rec") =>
           PrintT(ToJson([op |-> "accept", cls |-> [shape |-> descs[1]], mask |-> MJson(mdesc), declines |-> DJson(m.declines),
                          exp |-> [replay |-> [ok |-> TRUE, skeleton |-> Skel(Items(AcceptEvents(m.file[1], m.mask, m.declines, 1)))],
+                                  \* a tree in which the rows of both local variable tables share their entries (edited in memory) replays alike
+                                  merged |-> [ok |-> TRUE, skeleton |-> Skel(Items(AcceptEvents(m.file[1], m.mask, m.declines, 1)))],
                                   tree_equal |-> TRUE]]))
     /\ (Done /\ fam = "concat") =>
           PrintT(ToJson([op |-> "concat", classes |-> [i \in DOMAIN descs |-> [shape |-> descs[i]]], mask |-> MJson(mdesc),
